@@ -45,3 +45,16 @@ prop("C12", "exploration", (3000, 60000),
           "with the cap and every sibling compared against a sequential reference tree, and single-fault injection on every opening "
           "(leaf, position, each sibling, cap entry) that must be rejected; path compression round-trips on seeded index multisets.",
      note="Trusts the hash primitives (hash_or_noop/two_to_one) and the shim's fidelity to rayon's fork-join semantics; torn writes are not modelled.")
+
+prop("C01", "exploration", (1500, 40000),
+     rule="one run = one seeded scenario: program (3..60 ops from a random subset of op families: arithmetic, extension arithmetic, bit/limb decomposition, "
+          "range checks, selection/logic, random access, exponentiation, Poseidon hashing, Merkle membership, reductions, lookups, assertions) with boundary-biased "
+          "satisfying inputs x admissible CircuitConfig/FriConfig (row widths, constants, challenges 1-3, zk on/off, rate, cap height, pow bits, Fixed/ConstantArity/MinSize, "
+          "1-28 queries, Poseidon/Keccak) x fork-join schedule (1-16 simulated workers) x prover entropy stream (stream / all-zero / constant). "
+          "Oracle: build ok, prove ok, verify ok, public inputs == reference evaluator, proof survives encode/decode and a second verification. "
+          "distinct = distinct hash of (program shape, inputs, configuration, schedule trace); all executed scenarios are non-trivial (a full prove+verify happened)",
+     technique="deterministic simulation: fault-free setup->prover->channel->verifier pipeline under seeded schedule, entropy and configuration; independent reference evaluator",
+     text="Seeded exploration of the honest pipeline: every run builds a generated circuit, proves it under a simulated fork-join schedule and a seeded (or degenerate) "
+          "entropy source, sends the proof through the byte channel and verifies it; the carried public inputs are compared with an independent reference evaluator "
+          "(u128 Goldilocks, schoolbook extension, textbook Poseidon). It is also the fault-free configuration against which the fault-injecting checks are calibrated.",
+     note="Sampling over programs/configurations; the reference evaluator reads only constant tables from the library. Completeness failures of probability ~2^-50 by design are not special-cased.")
